@@ -565,78 +565,132 @@ def mac_check(ctx, esc):
 
 
 # ---------------------------------------------------------------------------------------
-def _kw(call):
-    return {k.arg: k.value for k in call.keywords if k.arg}
+# value-term helpers (sa.sval / sa.tq)
+def expect_term(ctx, rule, sv, got, pattern, what, key, site=None):
+    """obligation: the value term `got` matches the pattern (a Python expression over the function's parameters, `_` = any)"""
+    from .. import tq
+    pats = pattern if isinstance(pattern, (list, tuple)) else [pattern]
+    ok = got is not None and any(tq.match(sv.expr(p), got) is not None for p in pats)
+    ctx.check(ok, rule, what, key=key, site=site, detail={'found': tq.text(got, 300) if got is not None else None, 'expected': pats[0]})
+    return ok
 
 
-def selector_orientation(ctx, rule, fi, sel_call, who):
-    """XfrmSelector(...) keyword arguments are fed from the like-oriented parameters of fi"""
-    kw = {k: src(v) for k, v in _kw(sel_call).items()}
-    fam4 = 'socket.AF_INET if src_selector[0].version == 4 else socket.AF_INET6'
-    fam6 = 'socket.AF_INET6 if src_selector[0].version == 6 else socket.AF_INET'
+def term_table(ctx, term, cases, leaf_names):
+    """evaluates a term for each case (dict name -> value of the parameters / attribute chains listed in leaf_names);
+    returns the list of values or None when it cannot be evaluated"""
+    from .. import tq
+    from ..sval import show
+
+    out = []
+    for case in cases:
+        def leaf(t, case=case):
+            if t[0] in ('param', 'attr', 'global', 'index'):
+                k = show(t)
+                if k in case:
+                    return case[k]
+            raise tq.NoValue()
+        try:
+            out.append(tq.teval(term, leaf))
+        except (tq.NoValue, Exception):
+            return None
+    return out
+
+
+AF = {'socket.AF_INET': 'AF_INET', 'socket.AF_INET6': 'AF_INET6'}
+
+
+def family_ok(ctx, term, version_of):
+    """the term is AF_INET when <version_of>.version is 4 and AF_INET6 when it is 6"""
+    vals = term_table(ctx, term, [dict(AF, **{version_of + '.version': 4}), dict(AF, **{version_of + '.version': 6})], None)
+    return vals == ['AF_INET', 'AF_INET6']
+
+
+def selector_orientation(ctx, rule, fi, sel, who):
+    """XfrmSelector(...) fields (a value term) are fed from the like-oriented parameters of fi"""
+    from .. import tq
+    sv = ctx.sval(fi)
+    site = ctx.site(fi, fi.node)
+    ok = tq.is_call(sel, 'new xfrm.XfrmSelector')
+    ctx.check(ok, rule, '%s: with a selector' % who, key=(rule, who, 'sel'), site=site)
+    if not ok:
+        return
+    kw = tq.args(sel)
     want = {'daddr': 'XfrmAddress.from_ipaddr(dst_selector[0])', 'saddr': 'XfrmAddress.from_ipaddr(src_selector[0])',
             'dport': 'dst_port', 'sport': 'src_port', 'prefixlen_d': 'dst_selector.prefixlen',
             'prefixlen_s': 'src_selector.prefixlen', 'proto': 'ip_proto'}
     for k, v in want.items():
-        ctx.check(kw.get(k) == v, rule, '%s: selector %s = %s' % (who, k, v), key=(rule, who, 'sel', k), site=ctx.site(fi, sel_call),
-                  detail={'found': kw.get(k)})
-    ctx.check(kw.get('family') in (fam4, fam6), rule, '%s: selector family follows the IP version of the selector' % who,
-              key=(rule, who, 'sel', 'family'), site=ctx.site(fi, sel_call), detail={'found': kw.get('family')})
+        expect_term(ctx, rule, sv, kw.get(k), v, '%s: selector %s = %s' % (who, k, v), (rule, who, 'sel', k), site)
+    fam = kw.get('family')
+    ctx.check(fam is not None and (family_ok(ctx, fam, 'src_selector[0]') or family_ok(ctx, fam, 'dst_selector[0]')), rule,
+              '%s: selector family follows the IP version of the selector' % who, key=(rule, who, 'sel', 'family'), site=site,
+              detail={'found': tq.text(fam) if fam is not None else None})
     for m, p in (('dport_mask', 'dst_port'), ('sport_mask', 'src_port')):
-        ok = kw.get(m) in ('0 if %s == 0 else 65535' % p, '65535 if %s != 0 else 0' % p, '65535 if %s else 0' % p)
-        ctx.check(ok, rule, '%s: %s is 0 for port 0 and 0xFFFF otherwise, tied to %s' % (who, m, p), key=(rule, who, 'sel', m),
-                  site=ctx.site(fi, sel_call), detail={'found': kw.get(m)})
+        t = kw.get(m)
+        vals = term_table(ctx, t, [{p: 0}, {p: 1}, {p: 500}, {p: 65535}], None) if t is not None else None
+        ctx.check(vals == [0, 65535, 65535, 65535], rule, '%s: %s is 0 for port 0 and 0xFFFF otherwise, tied to %s' % (who, m, p),
+                  key=(rule, who, 'sel', m), site=site, detail={'found': tq.text(t) if t is not None else None})
     extra = set(kw) - set(want) - {'family', 'dport_mask', 'sport_mask'}
     ctx.check(not extra, rule, '%s: no other selector field is set' % who, key=(rule, who, 'sel', 'extra', ','.join(sorted(extra))),
-              site=ctx.site(fi, sel_call))
+              site=site)
+
+
+def one_send(ctx, rule, fi, msg, who):
+    """the single unconditional send_recv(<msg>, NLM_F_REQUEST | NLM_F_ACK, payload, attributes) of a request builder"""
+    sv = ctx.sval(fi)
+    sr = sv.calls_to(qual='netlink.NetlinkProtocol.send_recv')
+    pats = ['XFRM_MSG_%s' % msg, 'xfrm.XFRM_MSG_%s' % msg]
+    from .. import tq
+    ok = len(sr) == 1 and any(tq.match(sv.expr(p), sr[0].args.get('payload_type', ('undef',))) is not None for p in pats) \
+        and any(tq.match(sv.expr(p), sr[0].args.get('flags', ('undef',))) is not None for p in ('NLM_F_REQUEST | NLM_F_ACK',))
+    ctx.check(ok, rule, '%s sends one XFRM_MSG_%s with REQUEST|ACK' % (who, msg), key=(rule, who, 'send'), site=ctx.site(fi, fi.node),
+              detail={'found': [(tq.text(c.args.get('payload_type', ('undef',))), tq.text(c.args.get('flags', ('undef',)))) for c in sr]})
+    return sr[0] if len(sr) == 1 else None
 
 
 def create_sa_orientation(ctx, rule):
     """Xfrm.create_sa puts each parameter into the like-oriented field of the NEWSA request"""
+    from .. import tq
+    from ..sval import NONE
     fi = ctx.func('xfrm.Xfrm.create_sa')
-    calls = [n for n in walk_no_nested(fi.node) if isinstance(n, ast.Call)]
-
-    def named(name):
-        return [c for c in calls if (isinstance(c.func, ast.Name) and c.func.id == name)]
-    us = named('XfrmUserSaInfo')
-    ctx.check(len(us) == 1, rule, 'create_sa builds one xfrm_usersa_info', key=(rule, 'usersa'), site=ctx.site(fi, fi.node))
-    if len(us) != 1:
+    sv = ctx.sval(fi)
+    site = ctx.site(fi, fi.node)
+    sr = one_send(ctx, rule, fi, 'NEWSA', 'create_sa')
+    if sr is None:
         return
-    kw = _kw(us[0])
-    sel = kw.get('sel')
-    ctx.check(isinstance(sel, ast.Call) and src(sel.func) == 'XfrmSelector', rule, 'with a selector', key=(rule, 'sel'), site=ctx.site(fi, us[0]))
-    if isinstance(sel, ast.Call):
-        selector_orientation(ctx, rule, fi, sel, 'create_sa')
-    idc = kw.get('id')
-    idk = {k: src(v) for k, v in _kw(idc).items()} if isinstance(idc, ast.Call) and src(idc.func) == 'XfrmId' else {}
-    ctx.check(idk == {'daddr': 'XfrmAddress.from_ipaddr(dst)', 'proto': 'ipsec_proto', 'spi': 'create_byte_array(spi)'}, rule,
-              'create_sa: the SA is identified by (destination address, IPsec protocol, SPI)', key=(rule, 'id'), site=ctx.site(fi, us[0]),
-              detail={'found': idk})
-    ctx.check(src(kw.get('saddr')) == 'XfrmAddress.from_ipaddr(src)', rule, 'create_sa: source address = src', key=(rule, 'saddr'),
-              site=ctx.site(fi, us[0]))
-    ctx.check(src(kw.get('family')) in ('socket.AF_INET if src.version == 4 else socket.AF_INET6',
-                                        'socket.AF_INET6 if src.version == 6 else socket.AF_INET'), rule,
-              'create_sa: family follows the tunnel endpoint\'s IP version', key=(rule, 'family'), site=ctx.site(fi, us[0]))
-    ctx.check(src(kw.get('mode')) == 'mode', rule, 'create_sa: mode = mode', key=(rule, 'mode'), site=ctx.site(fi, us[0]))
+    ctx.check(not [a for a in sr.pc if a[0][0] != 'caught'], rule, 'create_sa sends the request unconditionally', key=(rule, 'send-always'), site=site)
+    us = sr.args.get('payload', NONE)
+    ok = tq.is_call(us, 'new xfrm.XfrmUserSaInfo')
+    ctx.check(ok, rule, 'create_sa builds one xfrm_usersa_info and sends it', key=(rule, 'usersa'), site=site)
+    if not ok:
+        return
+    kw = tq.args(us)
+    selector_orientation(ctx, rule, fi, kw.get('sel', NONE), 'create_sa')
+    expect_term(ctx, rule, sv, kw.get('id'), 'XfrmId(daddr=XfrmAddress.from_ipaddr(dst), proto=ipsec_proto, spi=create_byte_array(spi))',
+                'create_sa: the SA is identified by (destination address, IPsec protocol, SPI)', (rule, 'id'), site)
+    ctx.check(kw.get('id') is not None and tq.is_call(kw['id']) and set(tq.args(kw['id'])) == {'daddr', 'proto', 'spi'}, rule,
+              'create_sa: no other id field is set', key=(rule, 'id-extra'), site=site)
+    expect_term(ctx, rule, sv, kw.get('saddr'), 'XfrmAddress.from_ipaddr(src)', 'create_sa: source address = src', (rule, 'saddr'), site)
+    ctx.check(kw.get('family') is not None and family_ok(ctx, kw['family'], 'src'), rule,
+              'create_sa: family follows the tunnel endpoint\'s IP version', key=(rule, 'family'), site=site)
+    expect_term(ctx, rule, sv, kw.get('mode'), 'mode', 'create_sa: mode = mode', (rule, 'mode'), site)
     # attributes
-    stores = {}
-    for n in walk_no_nested(fi.node):
-        if isinstance(n, ast.Assign) and isinstance(n.targets[0], ast.Subscript) and src(n.targets[0].value) == 'attributes':
-            stores[src(n.targets[0].slice)] = (n, {k: src(v) for k, v in _kw(n.value).items()} if isinstance(n.value, ast.Call) else {},
-                                               src(n.value.func) if isinstance(n.value, ast.Call) else '')
-    ok = set(stores) == {'XFRMA_ALG_CRYPT', 'XFRMA_ALG_AUTH'} and all(f == 'XfrmAlgo.build' for _, _, f in stores.values()) \
-        and stores['XFRMA_ALG_CRYPT'][1] == {'alg_name': 'enc_algorithm', 'key': 'sk_e'} \
-        and stores['XFRMA_ALG_AUTH'][1] == {'alg_name': 'auth_algorithm', 'key': 'sk_a'}
+    at = sr.args.get('attributes', NONE)
+    ents = {}
+    if at[0] == 'dict':
+        for e in at[1]:
+            if len(e) == 2:
+                ents[tq.text(e[0]).split('.')[-1]] = ((), e[1])
+            elif e[0] == 'when':
+                ents[tq.text(e[2]).split('.')[-1]] = (e[1], e[3])
+    ok = set(ents) == {'XFRMA_ALG_CRYPT', 'XFRMA_ALG_AUTH'} \
+        and tq.match(sv.expr('XfrmAlgo.build(alg_name=enc_algorithm, key=sk_e)'), ents['XFRMA_ALG_CRYPT'][1]) is not None \
+        and tq.match(sv.expr('XfrmAlgo.build(alg_name=auth_algorithm, key=sk_a)'), ents['XFRMA_ALG_AUTH'][1]) is not None
     ctx.check(ok, rule, 'create_sa: XFRMA_ALG_CRYPT carries (enc_algorithm, sk_e) and XFRMA_ALG_AUTH carries (auth_algorithm, sk_a)',
-              key=(rule, 'algs'), site=ctx.site(fi, fi.node), detail={k: v[1] for k, v in stores.items()})
+              key=(rule, 'algs'), site=site, detail={'attributes': tq.text(at, 500)})
     if ok:
-        ifs = [n for n in walk_no_nested(fi.node) if isinstance(n, ast.If) and stores['XFRMA_ALG_CRYPT'][0] in n.body]
-        ctx.check(len(ifs) == 1 and src(ifs[0].test) == 'ipsec_proto == socket.IPPROTO_ESP' and not ifs[0].orelse, rule,
-                  'create_sa: the encryption algorithm is attached exactly for ESP', key=(rule, 'crypt-esp'), site=ctx.site(fi, fi.node))
-        ifs2 = [n for n in walk_no_nested(fi.node) if isinstance(n, ast.If) and stores['XFRMA_ALG_AUTH'][0] in ast.walk(n)]
-        ctx.check(not ifs2, rule, 'create_sa: the integrity algorithm is always attached', key=(rule, 'auth-always'), site=ctx.site(fi, fi.node))
-    sr = [c for c in calls if isinstance(c.func, ast.Attribute) and c.func.attr == 'send_recv']
-    ctx.check(len(sr) == 1 and [src(a) for a in sr[0].args] == ['XFRM_MSG_NEWSA', 'NLM_F_REQUEST | NLM_F_ACK', src(
-        [t for n in walk_no_nested(fi.node) if isinstance(n, ast.Assign) and n.value is us[0] for t in n.targets][0]), 'attributes'],
-        rule, 'create_sa sends XFRM_MSG_NEWSA with REQUEST|ACK, that structure and those attributes', key=(rule, 'send'),
-        site=ctx.site(fi, fi.node))
+        from ..sval import norm_pc
+        esp = norm_pc(((sv.expr('ipsec_proto == socket.IPPROTO_ESP'), True),))
+        ctx.check(tuple(ents['XFRMA_ALG_CRYPT'][0]) == esp, rule, 'create_sa: the encryption algorithm is attached exactly for ESP',
+                  key=(rule, 'crypt-esp'), site=site, detail={'condition': [tq.text(a[0]) + ('' if a[1] else ' is false') for a in ents['XFRMA_ALG_CRYPT'][0]]})
+        ctx.check(not ents['XFRMA_ALG_AUTH'][0], rule, 'create_sa: the integrity algorithm is always attached', key=(rule, 'auth-always'),
+                  site=site)
